@@ -10,7 +10,7 @@ def runParse (cfg : String) (inp : List String) (obs : List String) : Option Ver
   let mode := inp.headD "P"
   let (ra, rb) := splitBar (obs.map (fun t => if t == "||" then "|" else t))
   let rej := (judgeParse mode cmds inp obs ++ judgeParams cmds ra ++ (if mode == "P" then [] else judgeParams cmds rb)).eraseDups
-  let tags := [mode] ++ parseTags obs
+  let tags := [mode] ++ parseTags obs ++ (if mode == "PU" then [if puConclusive inp then "unit_isolation_conclusive" else "unit_isolation_inconclusive"] else [])
   -- static-heap build: whether a text is stored depends on the heap (C20, domain H); the context model keeps every
   -- text, so the drained queue is compared by codes only in that configuration
   let strip := fun (t : String) => if cfg == "B" ∧ t.startsWith "D" then ",".intercalate ((t.splitOn ",").map (fun e => (e.splitOn ":").headD "")) else t
